@@ -125,8 +125,8 @@ func RunTrip(c TripCase) *Sx {
 	} else {
 		cl = smtp.NewClient(c1)
 	}
-	cl.CommandTimeout = 3 * time.Second
-	cl.SubmissionTimeout = 3 * time.Second
+	cl.CommandTimeout = 6 * time.Second
+	cl.SubmissionTimeout = 6 * time.Second
 
 	results := L()
 	calls := L()
